@@ -207,6 +207,7 @@ type loopInfo struct {
 	autoInv  []autoInv
 	decAtHead string
 	entryNextRef string
+	entrySt map[string]string
 }
 
 func copyState(m map[string]string) map[string]string {
@@ -879,6 +880,7 @@ func (e *Enc) encodeBlockEntry(b *ssa.BasicBlock) {
 	}
 	nextRefEntry := e.getNextRef()
 	li.entryNextRef = nextRefEntry
+	li.entrySt = copyState(st)
 	for i, inv := range li.spec.Inv {
 		env := e.specEnv(b, nil)
 		t := env.boolExpr(inv.E)
@@ -922,10 +924,23 @@ func (e *Enc) encodeBlockEntry(b *ssa.BasicBlock) {
 				// (assumed at the head, checked at every back edge; opt out with "loop Lk noframe").
 				name := name
 				pre := preSt2(preSt, r, name)
+				var excl []string
+				for _, vn := range li.spec.FrameExcept {
+					for _, bb := range e.fn.Blocks {
+						for _, ins := range bb.Instrs {
+							if a, ok := ins.(*ssa.Alloc); ok && a.Comment == vn {
+								if l := e.locs[a]; l != nil && l.Kind == "heap" && l.Name == name {
+									excl = append(excl, fmt.Sprintf("(not (= r!f %s))", l.Base))
+								}
+							}
+						}
+					}
+				}
+				exclT := andTerms(excl)
 				f := func() string {
 					cur := e.getState(name)
-					return fmt.Sprintf("(forall ((r!f Int)) (! (=> (< r!f %s) (= (select %s r!f) (select %s r!f))) :pattern ((select %s r!f))))",
-						nextRefEntry, cur, pre, cur)
+					return fmt.Sprintf("(forall ((r!f Int)) (! (=> (and (< r!f %s) %s) (= (select %s r!f) (select %s r!f))) :pattern ((select %s r!f))))",
+						nextRefEntry, exclT, cur, pre, cur)
 				}
 				li.autoInv = append(li.autoInv, autoInv{name: "frame:" + mangle(name), f: f})
 				r.assume(fmt.Sprintf("(=> %s %s)", hr, f()))
@@ -1059,5 +1074,8 @@ func (e *Enc) specEnv(at *ssa.BasicBlock, extra map[string]SV) *SpecEnv {
 		vars[k] = v
 	}
 	env := &SpecEnv{e: e, vars: vars, old: map[string]string{}, errCtx: "loop clause in " + e.fn.Name(), at: at}
+	if li := e.loops[at]; li != nil && li.entrySt != nil {
+		env.entry = li.entrySt
+	}
 	return env
 }
